@@ -63,7 +63,8 @@ def mutations(segs, rnd, n_random):
         parts = segs[k].split('*')
         j = [x for x in range(len(parts)) if ':' in parts[x]][0]
         comp = parts[j].split(':')
-        for lab, c2 in (('cut after the first component', comp[:1] + ['']), ('cut to two components', comp[:2]),
+        for lab, c2 in (('with four more components than defined', comp + ['X', 'Y', 'Z', 'W']),
+                        ('cut after the first component', comp[:1] + ['']), ('cut to two components', comp[:2]),
                         ('first component emptied', [''] + comp[1:]), ('last component emptied', comp[:-1] + [''])):
             out.append(('composite %s in %s' % (lab, parts[0]), segs[:k] + ['*'.join(parts[:j] + [':'.join(c2)] + parts[j + 1:])] + segs[k + 1:]))
     # every transaction set damaged in all the ways a trailer can be (many distinct set-level codes at once)
@@ -221,7 +222,9 @@ def bounded_pipeline(seed, tier):
                         problems.append('C06: acknowledgement has envelope errors %r' % ([(e[0], e[1]) for e in env][:3],))
                     ids = [s.get_seg_id() for s in asegs]
                     if not ids or ids[0] != 'ISA' or ids[-1] != 'IEA':
-                        problems.append('C06: acknowledgement is not a complete interchange (%s ... %s)' % (ids[:1], ids[-1:]))
+                        no_id = any(x.split('*')[0].strip() == '' for x in s2)
+                        problems.append('C06: acknowledgement is not a complete interchange (%s ... %s)%s' % (
+                            ids[:1], ids[-1:], ' [the input holds a segment without an id]' if no_id else ''))
                 except Exception as e:
                     problems.append('C06: acknowledgement does not parse: %s: %s' % (type(e).__name__, e))
                     asegs = []
